@@ -29,4 +29,5 @@ var All = map[string]func(*Ctx){
 	"C13": C13,
 	"C14": C14,
 	"C15": C15,
+	"C16": C16,
 }
